@@ -556,7 +556,8 @@ def conclude(prop, tier, t0, jobs, tlc_results, reports, traces=()):
             # (never in a host-free row of the same table) shows that host bits are not ignored as keys
             slot = f"{mm['kind']}/{mm['e'].get('a', '?')}"
             if rep.get("per_kind", {}).get(slot, 0) > 0 and rep.get("per_kind_hostfree", {}).get(slot, 0) == 0 \
-                    and vlib.has_nonzero_host(mm.get("h")) | vlib.has_nonzero_host(mm.get("e")):
+                    and vlib.has_nonzero_host(mm.get("h")) | vlib.has_nonzero_host(mm.get("e")) \
+                    and "C18-nonbinding" not in own:
                 own = own | {"C18"}
             if prop in own:
                 mine.append(mm)
